@@ -7,6 +7,7 @@ CONSTANTS
   WithClear = TRUE
   FixJoin = TRUE
   FixGrow = TRUE
+  FixStart = TRUE
 INVARIANT Monitor
 POSTCONDITION Verdicts
 CHECK_DEADLOCK FALSE
